@@ -378,7 +378,20 @@ func c17Judge(img c17Image, last c17Op, before, after c17State, scratch string) 
 			}
 			return "C17/R1-second-reopen-fails " + sigCtx, ferr.Error()
 		}
-		r, w := c17FollowUp(fs, fu, before, after, isReset)
+		sessionWhole := false
+		if fu == "reopen" {
+			// the creation-time rule is judged only when the image's session file was empty, absent or whole: over a
+			// torn one the store writes the new text without truncating, and whether the result parses depends on the
+			// number of digits the clock happens to print (not decidable by enumeration; see DESIGN §4)
+			sessionWhole = true
+			if names, _ := filepath.Glob(filepath.Join(fd, "*.session")); len(names) == 1 {
+				if b, err := os.ReadFile(names[0]); err == nil && len(b) > 0 {
+					var tm time.Time
+					sessionWhole = tm.UnmarshalText(b) == nil
+				}
+			}
+		}
+		r, w := c17FollowUp(fs, fu, before, after, isReset, sessionWhole)
 		fs.Close()
 		os.RemoveAll(fd)
 		if r != "" {
@@ -396,12 +409,17 @@ func sigPoint(label string) string {
 }
 
 // c17FollowUp: continue using the recovered store; the next save must come back intact and alone.
-func c17FollowUp(st quickfix.MessageStore, kind string, before, after c17State, isReset bool) (string, string) {
+func c17FollowUp(st quickfix.MessageStore, kind string, before, after c17State, isReset bool, sessionWhole bool) (string, string) {
 	msg := []byte("FOLLOW-UP-MESSAGE")
 	switch kind {
 	case "reopen":
+		// the recovered store has one creation time: a Refresh does not move it
+		ct := st.CreationTime()
 		if err := st.Refresh(); err != nil {
 			return "C17/R1-refresh-fails", err.Error()
+		}
+		if sessionWhole && !st.CreationTime().Equal(ct) {
+			return "C17/R6-creation-time-moves", fmt.Sprintf("creation time of the recovered store was %v and is %v after Refresh", ct, st.CreationTime())
 		}
 		return "", ""
 	case "reset+saveincr":
